@@ -129,7 +129,16 @@ func c15Payload(n *com.Packet, id device.ID, kind byte) {
 	case 'd':
 		n.Write([]byte{0xC1, 0x5C, 1, 2, 3, 4, 5, 6})
 	case 'h':
-		c2.VerifC15HelloPayload(n, id, false)
+		// the hello BODY repeats a device ID (Machine.ID in the device information); nothing may route
+		// by it: the table, the look-up and every check go by the ID in the packet header. One hello in
+		// three carries another ID in its body (what a crafted client can send).
+		body := id
+		if n.Job%3 == 0 {
+			for k := 8; k < len(body); k++ {
+				body[k] ^= byte(0x5A + k)
+			}
+		}
+		c2.VerifC15HelloPayload(n, body, false)
 	case 'x':
 		n.Write([]byte{0xFF, 0xFE, 0xFD})
 	}
@@ -1325,6 +1334,64 @@ func runC15(c *Ctx) {
 			c.Count("prx:with-colliding-pair")
 		}
 		c.Eval(withColl && len(steps) >= 4, op)
+	})
+	// C2. the server asks a client that runs a Proxy to register again (SvRegister for the parent):
+	// Proxy.subsRegister queues a re-registration request for every proxied client. Each client's queue
+	// must receive its OWN request - a packet that names that client - and nothing naming anybody else
+	// (oracle only; the routing model has no step for it).
+	c.Cases("prx-register", c.N(150, 2500), func(r *Rng, i int) {
+		parent := c15RandID(r)
+		px := c2.VerifC15NewProxy(parent)
+		k := 2 + r.Intn(4)
+		var ids []device.ID
+		if r.Chance(40) && len(pairs) > 0 {
+			p := pairs[r.Intn(len(pairs))]
+			ids = append(ids, p[0]) // one half of a colliding pair is as good a client as any
+		}
+		for len(ids) < k {
+			ids = append(ids, c15RandID(r))
+		}
+		in := map[string]interface{}{"parent": hx(parent[:]), "clients": len(ids)}
+		for _, id := range ids {
+			n := &com.Packet{ID: c2.SvHello, Job: uint16(2 + r.Intn(60000)), Device: id}
+			c2.VerifC15HelloPayload(n, id, false)
+			if o := px.Talk("A", n); o.Err != nil {
+				return
+			}
+		}
+		px.Upstream()
+		before := map[device.ID]int{}
+		for _, cl := range px.Clients() {
+			before[cl.ID] = len(cl.Queued)
+		}
+		if len(before) != len(ids) {
+			return
+		}
+		if err := px.Receive(&com.Packet{ID: c2.SvRegister, Job: uint16(2 + r.Intn(60000)), Device: parent}); err != nil {
+			c.Fail("register", "prx-register:receive-error", err.Error(), in)
+			return
+		}
+		for _, cl := range px.Clients() {
+			nw := cl.Queued[before[cl.ID]:]
+			own := 0
+			for _, l := range nw {
+				switch {
+				case l.Dev != cl.ID:
+					c.Fail("effects", "prx-register:foreign-request:Proxy.subsRegister", fmt.Sprintf("the queue of proxied client %s received a packet (ID %#x) that names device %s", hx(cl.ID[:4]), l.ID, hx(l.Dev[:4])), in)
+					c.Eval(true, fmt.Sprint("prx-register", in))
+					return
+				case l.ID == c2.SvRegister:
+					own++
+				}
+			}
+			if own != 1 {
+				c.Fail("effects", "prx-register:no-own-request:Proxy.subsRegister", fmt.Sprintf("proxied client %s received %d re-registration requests of its own, expected one", hx(cl.ID[:4]), own), in)
+				c.Eval(true, fmt.Sprint("prx-register", in))
+				return
+			}
+		}
+		c.Count(fmt.Sprintf("prx-register:clients=%d", len(ids)))
+		c.Eval(true, fmt.Sprint("prx-register", in))
 	})
 	// D. supporting stress (a test, not a proof): registration is sequential (the property
 	// quantifies over histories, not interleavings), then several goroutines — one per group of
